@@ -197,6 +197,14 @@ def _c10_r1(repo, report, m, dests):
         report.ob("C10.R1", f"{mode}:{sid}", not c, facts={"term": e[4].key[:160], "switch": sorted(e[6]), "stage": MOD_STAGE_NAME[e[5]], "built_at": f"cli.py:{getattr(e[4].node, 'lineno', 0)} in {e[4].fn}", "conflicts": c[:3]},
                   expected="no slot of a later stage precedes it", loc=f"src/cutadapt/cli.py:{getattr(e[4].node, 'lineno', 0)}", cases=max(1, n_pairs // max(1, len(entries))),
                   why=(f"{c[0]['this']} (stage {c[0]['this_stage']}) is put on the list before {c[0]['other']} (stage {c[0]['other_stage']})" if c else ""))
+    c10_cut_values(repo, report, m, mode)
+    # --strip-suffix may be given several times: one remover per value, in the order given, each seeing the name the
+    # previous one left (that is what "applied in order" means for a repeated option)
+    ss = [(bi, ri, pos, sl) for bi, ri, pos, val, sl in m.slots("modifiers") if "SuffixRemover(" in sl.key]
+    ok_ss = bool(ss) and all("item(args.strip_suffix)" in sl.key and sl.loop for _, _, _, sl in ss)
+    report.ob("C10.R1", f"{mode}: one SuffixRemover per --strip-suffix value, in the given order", ok_ss, facts={"terms": sorted({sl.key for _, _, _, sl in ss})[:3]},
+              expected="for suffix in args.strip_suffix: SuffixRemover(suffix)", loc="src/cutadapt/cli.py",
+              why="" if ok_ss else "the values of a repeated --strip-suffix are not turned into one modifier each: a later suffix no longer sees the name the earlier one produced")
     # -u / -U values keep list order
     for e in entries:
         s = e[4]
@@ -204,6 +212,51 @@ def _c10_r1(repo, report, m, dests):
             d = "cut" if "cut" in e[6] else "cut2"
             ok = f"item(args.{d})" in s.key and s.loop
             report.ob("C10.R1", f"{mode}:{d} values in given order", ok, facts={"term": s.key}, expected=f"one cutter per element of args.{d}, iterated in list order", loc=f"src/cutadapt/cli.py:{getattr(s.node, 'lineno', 0)}")
+
+
+def c10_cut_values(repo, report, m, mode):
+    """Each -u/-U value decides about its own cutter only, and exactly the non-zero values get one (the class has no
+    branch for 0: its __call__ would fall off the end and the read would be taken for consumed)."""
+    import ast as _ast
+    import re as _re
+
+    from ..absint import Obj, explore
+    from ..repo import params as _params, strip_docstring as _sd
+
+    # what does UnconditionalCutter do with a length of 0?
+    c, call = repo.need_method("UnconditionalCutter", "__call__")
+    ps = _params(call)
+    rows = explore(repo, _sd(call.body), {"self": Obj("self", nonnull=True), ps[1]: Obj("READ", nonnull=True), ps[2]: Obj("INFO", nonnull=True)}, inline=False)
+    zero_falls = any(r.exit[0] == "fall" and r.valuation.get("sign:self.length") == 0 for r in rows)
+    other_falls = [r.describe()["valuation"] for r in rows if r.exit[0] == "fall" and r.valuation.get("sign:self.length") != 0]
+    report.ob("C10.R1", "UnconditionalCutter.__call__ returns a record for every non-zero length", not other_falls, facts={"length 0 falls off the end": zero_falls, "other paths without return": other_falls[:2]},
+              expected="read[length:] for a positive, read[:length] for a negative length", loc=repo.loc(call))
+    allowed = _re.compile(r"^(truthy:args\.cut2?|sign:len\(args\.cut2?\)-2|sign:args\.cut2?\[0\]\*args\.cut2?\[1\]|sign:item\(args\.cut2?\)|truthy:paired|truthy:PAIRED)$")
+    foreign = {}
+    zero_built = []
+    nonzero_seen = {"cut": set(), "cut2": set()}
+    n = 0
+    for bi, ri, pos, val, sl in m.slots("modifiers"):
+        if "UnconditionalCutter(" not in sl.key:
+            continue
+        n += 1
+        d = "cut2" if "item(args.cut2)" in sl.key else "cut"
+        own = val.get(f"sign:item(args.{d})")
+        if own in (-1, 1):
+            nonzero_seen[d].add(own)
+        if own not in (-1, 1) and zero_falls:
+            zero_built.append({"slot": sl.key, "guard": {k: str(v) for k, v in val.items() if d in k}})
+        for k in val:
+            if ("args.cut" in k) and not allowed.match(k):
+                foreign.setdefault(k, sl.key)
+    report.ob("C10.R1", f"{mode}: a cut value decides only about its own cutter", not foreign, facts={"foreign_conditions": dict(list(foreign.items())[:3])},
+              expected="cutter for value c built iff c != 0 (lists: at most two values of opposite sign)", loc="src/cutadapt/cli.py",
+              why=(f"a cutter is built or skipped depending on {next(iter(foreign))}: one value switches the other value's cutter" if foreign else ""))
+    report.ob("C10.R1", f"{mode}: no cutter is built for a length of 0", not zero_built, facts={"built_without_excluding_zero": zero_built[:2], "class_handles_zero": not zero_falls},
+              expected="value 0 is skipped by the builder (or UnconditionalCutter returns the read for 0)", loc="src/cutadapt/cli.py",
+              why=("-u 0 builds UnconditionalCutter(0), whose __call__ returns None: every read is taken for consumed, neither written nor counted" if zero_built else ""))
+    both = all(nonzero_seen[d] == {-1, 1} for d in (("cut", "cut2") if mode == "paired" else ("cut",)))
+    report.ob("C10.R1", f"{mode}: positive and negative values both get a cutter", both and n >= 2, facts={k: sorted(v) for k, v in nonzero_seen.items()}, expected="slots under sign(value) = -1 and = +1", loc="src/cutadapt/cli.py")
 
 
 def _slot_id(e):
